@@ -1317,18 +1317,28 @@ typedef struct gp_narrow_wide
     GPLocale         locale;
 } GPNarrowWide;
 
+// Like wcscmp(), but the strings may contain L'\0'.
+static int gp_wcs_compare_arrays(const GPArray(wchar_t) s1, const GPArray(wchar_t) s2)
+{
+    const size_t min_length = gp_min(gp_arr_length(s1), gp_arr_length(s2));
+    for (size_t i = 0; i < min_length; ++i)
+        if (s1[i] != s2[i])
+            return s1[i] < s2[i] ? -1 : 1;
+    return (gp_arr_length(s1) > gp_arr_length(s2)) - (gp_arr_length(s1) < gp_arr_length(s2));
+}
+
 static int gp_wcs_compare(const void*_s1, const void*_s2)
 {
     const GPNarrowWide* s1 = _s1;
     const GPNarrowWide* s2 = _s2;
-    return wcscmp(s1->wide, s2->wide);
+    return gp_wcs_compare_arrays(s1->wide, s2->wide);
 }
 
 static int gp_wcs_compare_reverse(const void*_s1, const void*_s2)
 {
     const GPNarrowWide* s1 = _s1;
     const GPNarrowWide* s2 = _s2;
-    return wcscmp(s2->wide, s1->wide);
+    return gp_wcs_compare_arrays(s2->wide, s1->wide);
 }
 
 static int gp_wcs_collate(const void*_s1, const void*_s2)
@@ -1445,7 +1455,7 @@ int gp_str_compare(
             result = wcscoll(wcs1, wcs2);
             #endif
     } else {
-        result = wcscmp(wcs1, wcs2);
+        result = gp_wcs_compare_arrays(wcs1, wcs2);
     }
 
     gp_arena_rewind(scratch, scratch_entry); // wcs1 may have moved
